@@ -1,3 +1,160 @@
-(* Engine entry points for C19: run_c19 sub-op case.  (stub until the property's model exists) *)
-From Pan Require Import Base.Common Base.Sx.
-Definition run_c19 (sub : Z) (x : sx) : sx := SL [SZ (-1)].
+(* Engine entry points for C19.  S-expression formats (all decoding happens here):
+     str    = (cp ...)                       num = (0 z) | (1 (n d)) | (2) inf | (3) -inf | (4) nan
+     yaml   = (0) | (1 b) | (2 num) | (3 str) | (4 tag val) | (5 (item ...)) | (6 tagopt ((k v) ...)) | (7 code)
+     opt x  = () | (x)
+     config = (input approx matcher handler groups inst glob dmetric dthr sgt log verbose)
+       input/metric/backend/ecres = member index;  approx = opt (opt backend)
+       matcher = opt ((0 metric num many_to_one) | (1 metric num))
+       handler = (((metric (no ep er normal)) ...) std)
+       groups  = opt ((name kind labels single) ...)     kind 0 LabelGroup, 1 LabelMergeGroup
+   ops: 1901 config -> (yaml  decode-of-it  wf  tables_ok)        1902 yaml -> decode
+        1903 (kind component) -> (yaml  decode-of-it)            1904 (kind yaml) -> decode of the component *)
+From Pan Require Import Base.Common Base.Sx Model.MetricTable Model.Config.
+Open Scope Z_scope.
+
+Definition T0 := model_tables.
+
+Definition ofStr (s : str) : sx := SL (map SZ s).
+Definition sStr (s : sx) : str := sZs s.
+Definition ofNum (n : num) : sx :=
+  match n with
+  | NInt z => SL [SZ 0; SZ z] | NFlt q => SL [SZ 1; ofQ q]
+  | NInf => SL [SZ 2] | NNegInf => SL [SZ 3] | NNan => SL [SZ 4]
+  end.
+Definition sNum (s : sx) : num :=
+  match s with
+  | SL [SZ 0; SZ z] => NInt z
+  | SL [SZ 1; q] => NFlt (Qred (sQ q))
+  | SL [SZ 2] => NInf | SL [SZ 3] => NNegInf | _ => NNan
+  end.
+
+Fixpoint ofYaml (y : yaml) : sx :=
+  match y with
+  | YNull => SL [SZ 0]
+  | YBool b => SL [SZ 1; ofB b]
+  | YNum n => SL [SZ 2; ofNum n]
+  | YStr s => SL [SZ 3; ofStr s]
+  | YTag t v => SL [SZ 4; ofStr t; ofStr v]
+  | YSeq l => SL [SZ 5; SL (map ofYaml l)]
+  | YMap t m => SL [SZ 6; ofOpt ofStr t; SL (map (fun kv => let '(k, v) := kv in SL [ofYaml k; ofYaml v]) m)]
+  | YRaise c => SL [SZ 7; SZ c]
+  end.
+
+Fixpoint sYaml (s : sx) : yaml :=
+  match s with
+  | SL [SZ 1; b] => YBool (sB b)
+  | SL [SZ 2; n] => YNum (sNum n)
+  | SL [SZ 3; x] => YStr (sStr x)
+  | SL [SZ 4; t; v] => YTag (sStr t) (sStr v)
+  | SL [SZ 5; SL items] => YSeq (map sYaml items)
+  | SL [SZ 6; tag; SL entries] =>
+      YMap (sOpt sStr tag)
+           (map (fun e => match e with SL [k; v] => (sYaml k, sYaml v) | _ => (YNull, YNull) end) entries)
+  | SL [SZ 7; SZ c] => YRaise c
+  | _ => YNull
+  end.
+
+Definition nthd {A} (l : list A) (i : Z) (d : A) : A := nth (Z.to_nat i) l d.
+Definition sMetric (s : sx) : metric := nthd all_metrics (sZ s) DSC.
+Definition ofMetric (m : metric) : sx := SZ (Z.of_nat (metric_idx m)).
+Definition sEcres (s : sx) : ecres := nthd all_ecres (sZ s) R_NONE.
+Definition ofEcres (r : ecres) : sx := SZ (Z.of_nat (ecres_idx r)).
+Definition sInput (s : sx) : input_type := nthd all_inputs (sZ s) IT_MATCHED.
+Definition ofInput (i : input_type) : sx := SZ (Z.of_nat (input_idx i)).
+Definition sBackend (s : sx) : backend := nthd all_backends (sZ s) B_cc3d.
+Definition ofBackend (b : backend) : sx := SZ (Z.of_nat (backend_idx b)).
+Definition sZerotp (s : sx) : zerotp := nthd all_zerotp (sZ s) Z_NORMAL.
+Definition ofZerotp (z : zerotp) : sx := SZ (Z.of_nat (zerotp_idx z)).
+
+Definition sApprox (s : sx) : approx := ACC (sOpt sBackend s).
+Definition ofApprox (a : approx) : sx := match a with ACC b => ofOpt ofBackend b end.
+Definition sMatcher (s : sx) : matcher :=
+  if sZ (sNth 0 s) =? 0 then MNaive (sMetric (sNth 1 s)) (sNum (sNth 2 s)) (sB (sNth 3 s))
+  else MMerge (sMetric (sNth 1 s)) (sNum (sNth 2 s)).
+Definition ofMatcher (m : matcher) : sx :=
+  match m with
+  | MNaive x t b => SL [SZ 0; ofMetric x; ofNum t; ofB b]
+  | MMerge x t => SL [SZ 1; ofMetric x; ofNum t]
+  end.
+Definition sMzh (s : sx) : mzh :=
+  {| mz_no := sEcres (sNth 0 s); mz_ep := sEcres (sNth 1 s); mz_er := sEcres (sNth 2 s); mz_normal := sEcres (sNth 3 s) |}.
+Definition ofMzh (z : mzh) : sx := SL [ofEcres (mz_no z); ofEcres (mz_ep z); ofEcres (mz_er z); ofEcres (mz_normal z)].
+Definition sHandler (s : sx) : handler :=
+  {| h_table := map (fun e => (sMetric (sNth 0 e), sMzh (sNth 1 e))) (sL (sNth 0 s)); h_std := sEcres (sNth 1 s) |}.
+Definition ofHandler (h : handler) : sx :=
+  SL [SL (map (fun mz => SL [ofMetric (fst mz); ofMzh (snd mz)]) (h_table h)); ofEcres (h_std h)].
+Definition sLgroup (s : sx) : lgroup :=
+  {| g_kind := if sZ (sNth 0 s) =? 0 then GPlain else GMerge; g_labels := sZs (sNth 1 s); g_single := sB (sNth 2 s) |}.
+Definition ofLgroup (g : lgroup) : sx :=
+  SL [SZ (match g_kind g with GPlain => 0 | GMerge => 1 end); ofZs (g_labels g); ofB (g_single g)].
+Definition sGroups (s : sx) : groups :=
+  match s with
+  | SL [SL es] => GList (map (fun e => (sStr (sNth 0 e), sLgroup (SL (tl (sL e))))) es)
+  | _ => GNone
+  end.
+Definition ofGroups (g : groups) : sx :=
+  match g with
+  | GNone => SL []
+  | GList l => SL [SL (map (fun ng => SL (ofStr (fst ng) :: sL (ofLgroup (snd ng)))) l)]
+  end.
+Definition sConfig (s : sx) : config :=
+  {| c_input := sInput (sNth 0 s); c_approx := sOpt sApprox (sNth 1 s); c_matcher := sOpt sMatcher (sNth 2 s);
+     c_handler := sHandler (sNth 3 s); c_groups := sGroups (sNth 4 s);
+     c_inst := map sMetric (sL (sNth 5 s)); c_glob := map sMetric (sL (sNth 6 s));
+     c_dmetric := sOpt sMetric (sNth 7 s); c_dthr := sOpt sNum (sNth 8 s);
+     c_sgt := sB (sNth 9 s); c_log := sB (sNth 10 s); c_verbose := sB (sNth 11 s) |}.
+Definition ofConfig (c : config) : sx :=
+  SL [ofInput (c_input c); ofOpt ofApprox (c_approx c); ofOpt ofMatcher (c_matcher c); ofHandler (c_handler c);
+      ofGroups (c_groups c); SL (map ofMetric (c_inst c)); SL (map ofMetric (c_glob c));
+      ofOpt ofMetric (c_dmetric c); ofOpt ofNum (c_dthr c); ofB (c_sgt c); ofB (c_log c); ofB (c_verbose c)].
+
+Definition ofRes19 {A} (f : A -> sx) (r : res A) : sx :=
+  match r with Ok a => SL [SZ 0; f a] | Err c => SL [SZ 1; SZ c] end.
+
+Definition run_config (x : sx) : sx :=
+  let c := sConfig x in
+  let y := encode T0 c in
+  SL [ofYaml y; ofRes19 ofConfig (decode T0 y); ofB (wf_config c); ofB (tables_ok T0)].
+
+Definition pair_out {A} (f : A -> sx) (y : yaml) (r : res A) : sx := SL [ofYaml y; ofRes19 f r].
+
+(* kind: 0 matcher 1 approximator 2 handler 3 zero-tp handling 4 label group 5 class groups 6 any-group
+         7 Metric 8 InputType 9 CCABackend 10 EdgeCaseResult 11 EdgeCaseZeroTP *)
+Definition run_component (x : sx) : sx :=
+  let k := sZ (sNth 0 x) in let p := sNth 1 x in
+  if k =? 0 then let v := sMatcher p in let y := enc_matcher T0 v in pair_out ofMatcher y (dec_matcher T0 y)
+  else if k =? 1 then let v := sApprox p in let y := enc_approx T0 v in pair_out ofApprox y (dec_approx T0 y)
+  else if k =? 2 then let v := sHandler p in let y := enc_handler T0 v in pair_out ofHandler y (dec_handler T0 y)
+  else if k =? 3 then let v := sMzh p in let y := enc_mzh T0 v in pair_out ofMzh y (dec_mzh T0 y)
+  else if k =? 4 then let v := sLgroup p in let y := enc_lgroup T0 v in pair_out ofLgroup y (dec_lgroup T0 y)
+  else if k =? 5 then let v := sGroups p in let y := enc_groups T0 v in pair_out ofGroups y (dec_groups T0 y)
+  else if k =? 6 then let y := enc_any T0 in pair_out (fun _ => SL []) y (dec_any T0 y)
+  else if k =? 7 then let y := enc_metric T0 (sMetric p) in pair_out ofMetric y (dec_metric T0 y)
+  else if k =? 8 then let y := enc_input T0 (sInput p) in pair_out ofInput y (dec_input T0 y)
+  else if k =? 9 then let y := enc_backend T0 (sBackend p) in pair_out ofBackend y (dec_backend T0 y)
+  else if k =? 10 then let y := enc_ecres T0 (sEcres p) in pair_out ofEcres y (dec_ecres T0 y)
+  else if k =? 11 then let y := enc_zerotp T0 (sZerotp p) in pair_out ofZerotp y (dec_zerotp T0 y)
+  else SL [SZ (-1)].
+
+Definition run_decode_component (x : sx) : sx :=
+  let k := sZ (sNth 0 x) in let y := sYaml (sNth 1 x) in
+  if k =? 0 then ofRes19 ofMatcher (dec_matcher T0 y)
+  else if k =? 1 then ofRes19 ofApprox (dec_approx T0 y)
+  else if k =? 2 then ofRes19 ofHandler (dec_handler T0 y)
+  else if k =? 3 then ofRes19 ofMzh (dec_mzh T0 y)
+  else if k =? 4 then ofRes19 ofLgroup (dec_lgroup T0 y)
+  else if k =? 5 then ofRes19 ofGroups (dec_groups T0 y)
+  else if k =? 6 then ofRes19 (fun _ => SL []) (dec_any T0 y)
+  else if k =? 7 then ofRes19 ofMetric (dec_metric T0 y)
+  else if k =? 8 then ofRes19 ofInput (dec_input T0 y)
+  else if k =? 9 then ofRes19 ofBackend (dec_backend T0 y)
+  else if k =? 10 then ofRes19 ofEcres (dec_ecres T0 y)
+  else if k =? 11 then ofRes19 ofZerotp (dec_zerotp T0 y)
+  else SL [SZ (-1)].
+
+Definition run_c19 (sub : Z) (x : sx) : sx :=
+  if sub =? 1 then run_config x
+  else if sub =? 2 then ofRes19 ofConfig (decode T0 (sYaml x))
+  else if sub =? 3 then run_component x
+  else if sub =? 4 then run_decode_component x
+  else SL [SZ (-1)].
